@@ -101,65 +101,7 @@ def check(ctx):
     upd = P.cls("Updater")
     updatable = P.cls("Updatable")
 
-    # ---------------- C10.a cache-clear pairing
-    caches = cache_fields(ctx, acc)
-    ctx.require("C10.a", "cached closures in Accumulator.__init__", len(caches), 2)
-    list_fields = {}
-    for cache_attr, fields in caches.items():
-        for fld in fields:
-            if fld in ("reduce",):
-                continue
-            list_fields.setdefault(fld, set()).add(cache_attr)
-    nmut = 0
-    for f in acc.all_funcs():
-        if f.name == "__init__":
-            continue
-        ctx.touch(f)
-        g = None
-        for fld, cattrs in list_fields.items():
-            muts = _stores_to_self(f.node, fld)
-            if not muts:
-                continue
-            g = g or CFG(f.node)
-            for m in muts:
-                nmut += 1
-                mnode = g.node_of(m)
-                clear_nodes = g.stmt_nodes_calling(
-                    lambda c: isinstance(c.func, ast.Attribute) and c.func.attr == "cache_clear"
-                    and is_self_attr(c.func.value) and c.func.value.attr in cattrs)
-                ok = mnode is not None and g.always_after([mnode], clear_nodes)
-                ctx.ob("C10.a", f"{f.short}: mutation of self.{fld}", ok,
-                       f"`{ast.unparse(m)[:60]}` is followed on every path by {sorted(cattrs)}.cache_clear()" if ok else
-                       f"`{ast.unparse(m)[:60]}` can reach the function exit without {sorted(cattrs)}.cache_clear(): "
-                       f"the cached reduction keeps serving the stale part list",
-                       P.loc(f, m), m)
-    ctx.require("C10.a", "part-list mutations outside __init__", nmut, 4)
-    # getters read through the caches
-    for pname, cattr in (("pos", None), ("neg", None)):
-        g = acc.find_prop(pname, "get")
-        if g is None:
-            raise AnalysisError(f"anchor vanished: Accumulator.{pname}")
-        called = [dotted(c.func) for c in P.calls_in(g)]
-        used = [c for c in called if c and c.startswith("self.") and c.split(".")[1] in caches]
-        want = [k for k, v in caches.items() if f"_{pname}" in v]
-        ok = bool(used) and all(u.split(".")[1] in want for u in used)
-        ctx.ob("C10.a", f"Accumulator.{pname} getter", ok,
-               f"returns the cache built over self._{pname}" if ok else f"getter reads {used}, expected the cache over self._{pname} ({want})", g.where)
-    # deleters rebind to an empty list
-    for pname in ("pos", "neg"):
-        d = acc.find_prop(pname, "del")
-        if d is None:
-            raise AnalysisError(f"anchor vanished: Accumulator.{pname} deleter")
-        ok = any(isinstance(n, ast.Assign) and is_self_attr(n.targets[0], f"_{pname}") and isinstance(n.value, ast.Call) and not n.value.args
-                 for n in walk_own(d.node))
-        ctx.ob("C10.c", f"Accumulator.{pname} deleter empties the part list", ok,
-               "" if ok else f"deleter does not rebind self._{pname} to an empty container", d.where)
-    clr = acc.methods.get("clear")
-    if clr is None:
-        raise AnalysisError("anchor vanished: Accumulator.clear")
-    dels = {t.attr for n in walk_own(clr.node) if isinstance(n, ast.Delete) for t in n.targets if is_self_attr(t)}
-    ctx.ob("C10.c", "Accumulator.clear deletes both parts", {"pos", "neg"} <= dels,
-           f"clear deletes {sorted(dels)}; both 'pos' and 'neg' must be emptied or a second application re-applies the kept part", clr.where)
+    caches = check_cache_pairing(ctx, "C10.a")
 
     # ---------------- C10.b reduction flows to every accumulator
     init = upd.methods.get("__init__")
@@ -318,6 +260,72 @@ def check(ctx):
     range_invariant(ctx)
     ctx.assume("torch.stack / the configured reduction / torch.heaviside implement their documented semantics")
     ctx.assume("bound_*_sharp: the value at the limit is 0 (second heaviside argument), as property C10 requires")
+
+
+def check_cache_pairing(ctx, rule):
+    P = ctx.prog
+    acc = P.cls("Accumulator")
+    # ---------------- C10.a cache-clear pairing
+    caches = cache_fields(ctx, acc)
+    ctx.require(rule, "cached closures in Accumulator.__init__", len(caches), 2)
+    list_fields = {}
+    for cache_attr, fields in caches.items():
+        for fld in fields:
+            if fld in ("reduce",):
+                continue
+            list_fields.setdefault(fld, set()).add(cache_attr)
+    nmut = 0
+    for f in acc.all_funcs():
+        if f.name == "__init__":
+            continue
+        ctx.touch(f)
+        g = None
+        for fld, cattrs in list_fields.items():
+            muts = _stores_to_self(f.node, fld)
+            if not muts:
+                continue
+            g = g or CFG(f.node)
+            for m in muts:
+                nmut += 1
+                mnode = g.node_of(m)
+                clear_nodes = g.stmt_nodes_calling(
+                    lambda c: isinstance(c.func, ast.Attribute) and c.func.attr == "cache_clear"
+                    and is_self_attr(c.func.value) and c.func.value.attr in cattrs)
+                ok = mnode is not None and g.always_after([mnode], clear_nodes)
+                ctx.ob(rule, f"{f.short}: mutation of self.{fld}", ok,
+                       f"`{ast.unparse(m)[:60]}` is followed on every path by {sorted(cattrs)}.cache_clear()" if ok else
+                       f"`{ast.unparse(m)[:60]}` can reach the function exit without {sorted(cattrs)}.cache_clear(): "
+                       f"the cached reduction keeps serving the stale part list",
+                       P.loc(f, m), m)
+    ctx.require(rule, "part-list mutations outside __init__", nmut, 4)
+    # getters read through the caches
+    for pname, cattr in (("pos", None), ("neg", None)):
+        g = acc.find_prop(pname, "get")
+        if g is None:
+            raise AnalysisError(f"anchor vanished: Accumulator.{pname}")
+        called = [dotted(c.func) for c in P.calls_in(g)]
+        used = [c for c in called if c and c.startswith("self.") and c.split(".")[1] in caches]
+        want = [k for k, v in caches.items() if f"_{pname}" in v]
+        ok = bool(used) and all(u.split(".")[1] in want for u in used)
+        ctx.ob(rule, f"Accumulator.{pname} getter", ok,
+               f"returns the cache built over self._{pname}" if ok else f"getter reads {used}, expected the cache over self._{pname} ({want})", g.where)
+    # deleters rebind to an empty list
+    for pname in ("pos", "neg"):
+        d = acc.find_prop(pname, "del")
+        if d is None:
+            raise AnalysisError(f"anchor vanished: Accumulator.{pname} deleter")
+        ok = any(isinstance(n, ast.Assign) and is_self_attr(n.targets[0], f"_{pname}") and isinstance(n.value, ast.Call) and not n.value.args
+                 for n in walk_own(d.node))
+        ctx.ob(rule, f"Accumulator.{pname} deleter empties the part list", ok,
+               "" if ok else f"deleter does not rebind self._{pname} to an empty container", d.where)
+    clr = acc.methods.get("clear")
+    if clr is None:
+        raise AnalysisError("anchor vanished: Accumulator.clear")
+    dels = {t.attr for n in walk_own(clr.node) if isinstance(n, ast.Delete) for t in n.targets if is_self_attr(t)}
+    ctx.ob(rule, "Accumulator.clear deletes both parts", {"pos", "neg"} <= dels,
+           f"clear deletes {sorted(dels)}; both 'pos' and 'neg' must be emptied or a second application re-applies the kept part", clr.where)
+
+    return caches
 
 
 def range_invariant(ctx):
